@@ -24,8 +24,9 @@ def tasks(tier):
            for lo in (False, True)]
     for nm in SCIPY:
         if nm.endswith('lbfgsb'):
-            out.append(Task('props.bounded_C12:drv_scipy', name='C12/bounded/%s' % nm, tier=tier, which=nm, nstarts=1 if q else 3, shim=False, timeout=1500))
-            out.append(Task('props.bounded_C12:drv_scipy', name='C12/bounded/%s.iprint-shim' % nm, tier=tier, which=nm, nstarts=ns, shim=True, timeout=1500))
+            out.append(Task('props.bounded_C12:drv_scipy', name='C12/bounded/%s' % nm, tier=tier, which=nm, nstarts=ns, shim=False, timeout=1500))
+            # only informative on a tree that still passes iprint= (TypeError with scipy>=1.18): reaches the wiring behind it
+            out.append(Task('props.bounded_C12:drv_scipy', name='C12/bounded/%s.iprint-shim' % nm, tier=tier, which=nm, nstarts=1 if q else 3, shim=True, timeout=1500))
         else:
             out.append(Task('props.bounded_C12:drv_scipy', name='C12/bounded/%s' % nm, tier=tier, which=nm, nstarts=ns, shim=False, timeout=1500))
     out.append(Task('props.bounded_C12:drv_grid', name='C12/bounded/optimize_grid', tier=tier, ngrids=6 if q else 60, timeout=1500))
@@ -47,12 +48,15 @@ def _det(d_):
 class Problem:
     """k-parameter closed-form model, its data, an evaluation log and an independent likelihood."""
 
-    def __init__(self, dadi, np, k, multinom, rng):
+    def __init__(self, dadi, np, k, multinom, rng, data=None):
         self.dadi, self.np, self.k, self.multinom = dadi, np, k, multinom
         self.i = np.arange(1, N)
         self.log = []
-        noise = np.array([1 + 0.08 * rng.uniform(-1, 1) for _ in range(N - 1)])
-        self.d = self.shape(PTRUE[:k]) * noise * (3.7 if multinom else 1.0)
+        if data is not None:
+            self.d = np.array(data, dtype=float)
+        else:
+            noise = np.array([1 + 0.08 * rng.uniform(-1, 1) for _ in range(N - 1)])
+            self.d = self.shape(PTRUE[:k]) * noise * (3.7 if multinom else 1.0)
         arr = np.zeros(N + 1)
         arr[1:N] = self.d
         self.data = dadi.Spectrum(arr)
@@ -130,6 +134,11 @@ def _contracts(d_, np, name, key, prob, p0, fixed, lb, ub, xopt, reported, info,
         ok = all(xopt[j] == fixed[j] for j in fj)
         d_.case(key + ('fixed-returned',), ok, dict(info, fixed=fixed), bool(fj), name + '-fixed-param-not-returned' + sfx)
     ok = len(xopt) == k and bool(np.all(np.isfinite(xopt))) and inb(xopt)
+    if not ok and reported is not None and abs(reported + 1e8) <= 1.0:
+        # the optimiser stopped on the out-of-bounds penalty plateau (_out_of_bounds_val) and that point is handed back
+        d_.case(key + ('returned-in-bounds',), False, dict(info, ll_start=prob.ll(start), best_evaluated_ll=max(prob.ll(e) for e in evals)), True,
+                name + '-returns-out-of-bounds-penalty-point')
+        return
     d_.case(key + ('returned-in-bounds',), ok, info, True, name + '-returned-outside-bounds' + sfx)
     if not (len(xopt) == k and np.all(np.isfinite(xopt))):
         return
@@ -272,6 +281,21 @@ def drv_scipy(tier, which, nstarts, shim):
                 _contracts(d_, np, which, key, prob, p0, fixed, lb, ub, np.asarray(xopt, dtype=float), rep, info)
                 return True, None
             d_.check(key, run, info, which + '-driver-exception', nontrivial=False)
+        if which == 'optimize_log':
+            # pinned case found by the thorough tier under another seed (about 1 run in 10^4): BFGS walks onto the penalty plateau
+            pin = dict(k=4, p0=[0.056035406038669924, 1.0540665386511048, 0.017666715410811325, 0.034665695088744695],
+                       fixed=[None, 5.222762423735782, None, 7.952012335475725], multinom=False,
+                       data=[578.0471631690394, 262.29519390522995, 163.99548691676347, 112.14054768129047, 71.69365671463687, 64.25902429482306,
+                             61.26397123226303, 56.06567136343042, 60.360799645668415, 76.34631182983897, 121.7441115670576])
+            prob = Problem(dadi, np, 4, False, rng, data=pin['data'])
+            info = dict(pin, optimiser=which, lower=[LB] * 4, upper=[UB] * 4, ll_scale=1, maxiter=None, pinned=True)
+
+            def run_pinned():
+                prob.log[:] = []
+                xopt, rep = _call_scipy(I, which, prob, list(pin['p0']), [LB] * 4, [UB] * 4, list(pin['fixed']), False, 1, None)
+                _contracts(d_, np, which, ('pinned-plateau',), prob, pin['p0'], pin['fixed'], [LB] * 4, [UB] * 4, np.asarray(xopt, dtype=float), rep, info)
+                return True, None
+            d_.check(('pinned-plateau',), run_pinned, info, which + '-driver-exception', nontrivial=False)
         if which == 'optimize_cons':
             # the documented default maxiter=None
             prob = Problem(dadi, np, 2, True, rng)
